@@ -5,7 +5,10 @@
 (* content particles): substitution groups (flat and chained, abstract      *)
 (* heads), complex type extension with xsi:type (abstract bases), named     *)
 (* model groups and attribute groups, recursion, wildcards, and schemas     *)
-(* split over files by include (same namespace) or import (another one).    *)
+(* split over files by include (same namespace), import (another one) or a  *)
+(* CHAMELEON include (the included file has no target namespace and refers  *)
+(* to its own components without a prefix; they land in the including       *)
+(* schema's namespace).                                                     *)
 (*                                                                         *)
 (* A schema is a record of choices (see MC_Compose!SchemaOf); its           *)
 (* components are fixed:                                                    *)
